@@ -19,16 +19,21 @@ ASSUMPTIONS = ["the six mask expressions and the 256-row flag graph are regenera
                "theorems are checked against them by kernel evaluation over all 256 bytes"]
 
 
+# what follows the attested data when ED is set: the table must not depend on *which* extension map it is
+# (the empty map is a legal, canonically encoded extension map)
+EXTS = [{"credProtect": 2}, {}, {"credBlob": True, "x": [1, {"y": b"z"}]}]
+
+
 def spec_row(b):
     return {"up": bool(b & 1), "uv": bool(b & 4), "be": bool(b & 8), "bs": bool(b & 16), "at": bool(b & 64), "ed": bool(b & 128)}
 
 
-def reg_case(res, tie, b, policy, c):
+def reg_case(res, tie, b, policy, c, xi=0):
     """registration (fmt none) with flags byte b under (require_up, require_uv)"""
     require_up, require_uv = policy
     row = spec_row(b)
     cose = c.cose() if row["at"] else None
-    ext = cbor2.dumps({"credProtect": 2}) if row["ed"] else None
+    ext = cbor2.dumps(EXTS[xi]) if row["ed"] else None
     ad = core.auth_data(core.sha256(b"example.com"), b, 4, aaguid=bytes(range(16)), cred_id=b"cred-id-0123", cose=cose, ext=ext)
     cdj = core.client_data("webauthn.create", b"\x02" * 32, "https://example.com")
     ao = cbor2.dumps({"fmt": "none", "attStmt": {}, "authData": ad})
@@ -39,7 +44,7 @@ def reg_case(res, tie, b, policy, c):
     code = cases.run_reg(cr, e)
     res.evaluations += 1
     tie.check(cases.reg_case(cr, e), code, label=["reg-flags", b, require_up, require_uv])
-    res.nontrivial.add(("reg", b, policy))
+    res.nontrivial.add(("reg", b, policy, xi))
     res.count("reg:" + corr.kind(code))
     expect_accept = (row["up"] or not require_up) and (row["uv"] or not require_uv) and row["at"] and not (row["bs"] and not row["be"])
     ok = (code["k"] == "accept") == expect_accept
@@ -58,14 +63,14 @@ def work(tasks, idx):
     drv = Driver(Oracle()) if work.driver_ok else None
     tie = corr.Tie(res, drv, "eq")
     cs = _auth.creds()
-    for b, require_uv, ci in tasks:
+    for b, require_uv, ci, xi in tasks:
         if isinstance(require_uv, tuple):
-            reg_case(res, tie, b, require_uv, cs[ci])
+            reg_case(res, tie, b, require_uv, cs[ci], xi)
             continue
         c = cs[ci]
         row = spec_row(b)
         cose = c.cose() if row["at"] else None
-        ext = cbor2.dumps({"credProtect": 2}) if row["ed"] else None
+        ext = cbor2.dumps(EXTS[xi]) if row["ed"] else None
         ad = core.auth_data(core.sha256(b"example.com"), b, 9, aaguid=b"\x07" * 16, cred_id=b"cred-id-0123", cose=cose, ext=ext)
         # the parser alone
         code_p = cases.code_parse_auth_data(ad)
@@ -83,7 +88,7 @@ def work(tasks, idx):
         res.evaluations += 1
         tie.check(cases.auth_case(a, e), code, label=["flags", b, require_uv])
         expect_accept = row["up"] and (row["uv"] or not require_uv) and not (row["bs"] and not row["be"])
-        res.nontrivial.add((b, require_uv))
+        res.nontrivial.add((b, require_uv, xi))
         res.count("auth:" + corr.kind(code))
         ok = (code["k"] == "accept") == expect_accept
         if ok and code["k"] == "accept":
@@ -105,12 +110,15 @@ def work(tasks, idx):
 def run(ctx, res):
     rng = ctx.rng
     ncreds = len(_auth.creds())
-    tasks = [(b, uv, rng.randrange(ncreds)) for b in range(256) for uv in (False, True)]
-    tasks += [(b, (up, uv), rng.randrange(ncreds)) for b in range(256) for up in (False, True) for uv in (False, True)]
+    def exts(b):
+        return range(len(EXTS)) if b & 0x80 else (0,)
+    tasks = [(b, uv, rng.randrange(ncreds), xi) for b in range(256) for uv in (False, True) for xi in exts(b)]
+    tasks += [(b, (up, uv), rng.randrange(ncreds), xi) for b in range(256) for up in (False, True) for uv in (False, True)
+              for xi in exts(b)]
     work.driver_ok = ctx.driver_ok
     corr.merge(res, corr.parallel(work, tasks))
     res.exhaustive = True
     res.rule = ("ALL 256 flag bytes x require_user_verification in {False, True} for authentication and x (require_user_presence, "
-                "require_user_verification) in all four combinations for registration (fmt none), authenticator data laid out as the flags announce, "
+                "require_user_verification) in all four combinations for registration (fmt none), authenticator data laid out as the flags announce (three extension maps incl. the empty one when ED is set), "
                 "each assertion genuinely signed; parser outcome and verify_authentication_response outcome/reported fields compared "
                 "with the spec table and with the model (equality); distinct = (flag byte, policy)")
